@@ -46,6 +46,7 @@ import threading as _real_threading
 from typing import Any, Dict, List, Optional, Tuple
 
 from . import common as C
+from . import priv as _PV
 from . import datalog_corr as D
 
 SHARED = {"wbuf": "w", "subdivide_flag": "f", "collection_stopped": "s", "formatter": "m", "fd": "d"}
@@ -232,15 +233,16 @@ def run_fine_case(case: Dict[str, Any]) -> Dict[str, Any]:
         return _alive(self)
 
     shim_thr.Thread.is_alive = is_alive
-    old = (dcm.threading, dcm.time, dsm.__dict__.get("open"), qlm.tempfile, qlm.shutil)
-    dcm.threading, dcm.time = shim_thr, shim_time
+    from .rebind import rebind, snapshot, reinstate   # stand-ins under any import style of the data-logger files
+    old = (snapshot(dcm, ("threading", "time")), None, dsm.__dict__.get("open"), snapshot(qlm, ("tempfile", "shutil")))
+    rebind(dcm, {"threading": shim_thr, "time": shim_time})
 
     def gopen(path, mode="r", *a, **k):
         ctl.io("open")
         return GFile(ctl, builtins.open(path, mode, *a, **k), "")
 
     dsm.open = gopen
-    qlm.tempfile, qlm.shutil = _ShimTempfile(ctl), _ShimShutil(ctl)
+    rebind(qlm, {"tempfile": _ShimTempfile(ctl), "shutil": _ShimShutil(ctl)})
     base = tempfile.mkdtemp(prefix="pyrtma_verif_dlfine_")
     wc = D.WarnCounter()
     root_logger = logging.getLogger("data_logger")
@@ -369,7 +371,7 @@ def run_fine_case(case: Dict[str, Any]) -> Dict[str, Any]:
             ctl.abort = False
         ctl.free = True
         if dc is not None:
-            dc._close = True
+            _PV.set_flag_read_by(dc, "write", True, "_close")      # the writer loop's stop flag, whatever it is called
             if ctl.started and ctl.at.get("W") != "finished":
                 ctl.go["W"].release()
             try:
@@ -389,14 +391,14 @@ def run_fine_case(case: Dict[str, Any]) -> Dict[str, Any]:
                     except Exception:  # noqa: BLE001
                         pass
             finally:
-                dc._dead = True
+                _PV.set_flag_read_by(dc, "__del__", True, "_dead")     # keeps __del__ from closing again
         root_logger.removeHandler(wc)
-        dcm.threading, dcm.time = old[0], old[1]
+        reinstate(dcm, old[0])
         if old[2] is None:
             dsm.__dict__.pop("open", None)
         else:
             dsm.open = old[2]
-        qlm.tempfile, qlm.shutil = old[3], old[4]
+        reinstate(qlm, old[3])
         shutil.rmtree(base, ignore_errors=True)
     return obs
 
